@@ -86,17 +86,16 @@ Proof.
 Qed.
 
 Lemma reload_equiv_reachable_hooks k hooks ops now :
-  (k = Linear -> forallb (op_hook_ok hooks) ops = true) ->
   let s := reachable k hooks None ops in
   no_expired s now ->
   exists s', st_load k hooks (st_store s) now = (s', Ok tt) /\
              st_facts s' = st_facts s /\ st_store s' = st_store s /\
              (k = Indexed -> st_wf s' /\ Idx_sup s').
 Proof.
-  intros Hh s Hne.
+  intros s Hne.
   destruct (reachable_fields k hooks None ops) as (Fk & Fh & Ff). fold s in Fk, Fh, Ff.
   assert (HM : M s).
-  { unfold s, reachable. apply fold_sstep_M; [|split; reflexivity]. exact Hh. }
+  { unfold s, reachable. apply fold_sstep_M. split; reflexivity. }
   destruct (reload_same_facts_main s now) as (s' & H1 & H2 & H3 & _ & _ & H6).
   - apply reachable_wf.
   - apply reachable_prepared.
@@ -118,12 +117,30 @@ Qed.
 
 (** * Witnesses *)
 
-(** Linear state with the cron hooks: the storage is written, then the hook
-    rejects the fact — the record stays in the storage only. *)
-Lemma hook_reject_leaves_residue_counterexample :
-  let s := reachable Linear true None [(SAdd "r" (JObj [("rule", JNum 1)]) "f" None, 10)] in
-  st_facts s = [] /\ st_store s = [("r", JObj [("rule", JNum 1)])] /\
-  snd (st_add (empty_state Linear true) "r" (JObj [("rule", JNum 1)]) 10 "f" None) = Err "rule isn't a map".
+(** An add that the hook rejects changes nothing at all, in either state kind
+    (the linear state used to write the record first: D33, repaired). *)
+Lemma hook_reject_leaves_no_residue_main : hook_reject_leaves_no_residue_statement.
+Proof.
+  intros s g x now fr aux id fact e Hp Hh. unfold st_add. rewrite Hp.
+  destruct (st_kind s) eqn:Hk.
+  - destruct (extract_rule fact false) as [rule|e0|w|] eqn:Er.
+    2:{ cbn [fst snd]. split; [reflexivity|]. split; [eauto|discriminate]. }
+    2-3: unfold extract_rule in Er; destruct (jget "rule" fact) as [[]|]; discriminate.
+    rewrite Hh. cbn [fst snd]. split; [reflexivity|]. split; [eauto|discriminate].
+  - rewrite Hh. cbn [fst snd]. split; [reflexivity|]. split; [eauto|reflexivity].
+Qed.
+
+(** The hypotheses are satisfiable: the history that used to leave a record
+    behind (a rule that is not a map, cron hooks installed) now leaves nothing,
+    in the linear and in the indexed state. *)
+Example hook_reject_leaves_no_residue_example :
+  (let s := reachable Linear true None [(SAdd "r" (JObj [("rule", JNum 1)]) "f" None, 10)] in
+   st_facts s = [] /\ st_store s = [] /\ st_calls s = 0%nat) /\
+  snd (st_add (empty_state Linear true) "r" (JObj [("rule", JNum 1)]) 10 "f" None) = Err "rule isn't a map" /\
+  (let s := reachable Indexed true None [(SAdd "r" (JObj [("rule", JObj [("schedule", JNum 1)])]) "f" None, 10)] in
+   st_facts s = [] /\ st_store s = [] /\ st_calls s = 0%nat) /\
+  snd (st_add (empty_state Indexed true) "r" (JObj [("rule", JObj [("schedule", JNum 1)])]) 10 "f" None)
+    = Err "schedule isn't a string".
 Proof. vm_compute. repeat split; reflexivity. Qed.
 
 (** Indexed state: an add whose storage write fails answers Err, and has
